@@ -8,6 +8,7 @@ CONSTANTS
   MaxSeeds = 0
   MaxSeedLen = 0
   WithTwins = FALSE
+  ResizeAlways = TRUE
 SPECIFICATION Spec
 INVARIANT NoBrokenRule
 INVARIANT ExactOnSuccess
